@@ -1051,6 +1051,11 @@ static void fill_rect(int x, int y, int w, int h, uint32_t v) {
   if (x < 0) x = 0; if (y < 0) y = 0; if (x + w > fbw) w = fbw - x; if (y + h > fbh) h = fbh - y;
   for (j = 0; j < h; j++) for (i = 0; i < w; i++) server_fb[(size_t)(y + j) * fbw + x + i] = v + (uint32_t)(i * 7 + j * 13);
 }
+static int count_fds(void) {
+  int n = 0, fd; for (fd = 0; fd < 1024; fd++) if (fcntl(fd, F_GETFD) != -1) n++;
+  return n;
+}
+static int fds_at_start = -1;
 static long count_maps(void) {
   FILE *f = fopen("/proc/self/maps", "r"); long n = 0; int c;
   if (!f) return -1;
@@ -1135,6 +1140,7 @@ int main(void) {
       sharing = n >= 15 ? atoi(tok[14]) : 0;
       srng = seed * 0x9E3779B97F4A7C15ull + 12345;
       for (k = 0; k < pct_d; k++) pct_cp[k] = 1 + srand64() % (n >= 12 ? strtoull(tok[11], NULL, 10) : 3000);
+      fds_at_start = count_fds();
       /* scheduler on: the main thread is the application thread */
       self = new_thread('A', -1); self->lib = 0; self->started = 1;
       sched_on = 1;
@@ -1382,6 +1388,8 @@ int main(void) {
       /* a thread that has ended still owns the mutex: nobody can ever unlock it */
       if (objs[i].owner->state == T_EXITED) { tname(objs[i].owner->idx, tb); printf("res exit-holding %s %s\n", tb, b); } }
   }
+  /* clean shutdown gives every descriptor back (sockets, listening sockets, notify pipes) */
+  if (did_cleanup && fds_at_start >= 0) { int n = count_fds(); if (n > fds_at_start) printf("res fd-leak before=%d after=%d\n", fds_at_start, n); }
   printf("res stats steps=%llu vtime_us=%llu clients=%d shutdown=%d cleanup=%d\n", (unsigned long long)steps, (unsigned long long)vtime_us, nclients, did_shutdown, did_cleanup);
   for (k = 0; k < MAXPEER; k++) if (peers[k].used && peers[k].started) { free(peers[k].fb); peers[k].fb = NULL;
     printf("res peer %d cid=%d kind=%d updates=%d bells=%d cuts=%d handshook=%d finished=%d\n", k, peers[k].cid, peers[k].kind, peers[k].updates, peers[k].bells, peers[k].cuts, peers[k].handshook, peers[k].finished); }
